@@ -10,7 +10,7 @@
                         identifiers, formulae and SMILES-like labels, e.g. CC(=O)O, C#C, Fe(OH)3 ([ex_label_domain]).
       [rxns_of H]       the stored reactions (rule, reactants, products) as a list; multiset equality is [≡ₚ]. *)
 From stdpp Require Import gmap strings sets.
-From SK Require Import lib.Tok model.C15_Model proof.C15_Proof model.C16_Model proof.C16_Defs proof.C16_Chars proof.C16_Str proof.C16_Sg proof.C16_BipA proof.C16_BipB proof.C16_Reach.
+From SK Require Import lib.Tok model.C15_Model proof.C15_Proof model.C16_Model proof.C16_Defs proof.C16_Chars proof.C16_Str proof.C16_Sg proof.C16_BipA proof.C16_BipB proof.C16_Reach proof.C16_SgMol proof.C16_StrItems.
 Local Open Scope string_scope.
 
 (** every network reachable through the store operations (C15_inv_reachable) satisfies the decidable premise used below *)
@@ -22,6 +22,11 @@ Print Assumptions C16_inv_wf.
 Theorem C16_generated_wf : ∀ kept rxns mols, wf16 (mk_net kept rxns mols).
 Proof. exact mk_net_wf16. Qed.
 Print Assumptions C16_generated_wf.
+
+(** ... and stays so under in-place edits with the public mutators (the history cases edit ONE object between views) *)
+Theorem C16_edited_wf : ∀ kept rxns mols (eds : list edit), wf16 (foldl apply_edit (mk_net kept rxns mols) eds).
+Proof. exact edited_wf16. Qed.
+Print Assumptions C16_edited_wf.
 
 (** ** Bipartite species/reaction graph *)
 
@@ -102,3 +107,48 @@ Theorem C16_species_graph_roundtrip :
     = stoich_of <$> edges H.
 Proof. exact species_graph_roundtrip. Qed.
 Print Assumptions C16_species_graph_roundtrip.
+
+(** the whole reconstructed network: for two-sided networks whose occurring species are registered (part of [wf16]), the
+    species are the occurring species and the molecule labels of exactly those species come back (when exported and
+    imported; none otherwise) — whatever the label VALUES are (the model carries them as opaque strings; falsy labels such
+    as 0, "", False are ordinary values) *)
+Theorem C16_species_graph_roundtrip_full :
+  ∀ (pick : gset string → string) (default_rule : string) (include_mol mol_attr : bool) (H : net),
+  two_sided H → occurring H ⊆ species H →
+  (species_graph_to_hypergraph pick default_rule mol_attr (hypergraph_to_species_graph include_mol H)).2 = None ∧
+  stoich_of <$> edges (species_graph_to_hypergraph pick default_rule mol_attr (hypergraph_to_species_graph include_mol H)).1
+    = stoich_of <$> edges H ∧
+  species (species_graph_to_hypergraph pick default_rule mol_attr (hypergraph_to_species_graph include_mol H)).1 = occurring H ∧
+  mol (species_graph_to_hypergraph pick default_rule mol_attr (hypergraph_to_species_graph include_mol H)).1
+    = if include_mol && mol_attr then filter (λ p, p.1 ∈ occurring H) (mol H) else ∅.
+Proof. exact species_graph_roundtrip_full. Qed.
+Print Assumptions C16_species_graph_roundtrip_full.
+
+(** ** parse_rxns with explicit per-line rules (tuples, mapping, rules=) *)
+(** [print_items H sort] = the (id, reaction) pairs in printing order; [hypergraph_to_rxn_strings H ir ii sort] is
+    [fmt_line ir ii] mapped over it ([printed_lines]). *)
+
+Theorem C16_parse_plain_is_items : ∀ s lines dr ps pf,
+  parse_items s ((λ l, (l, None)) <$> lines) dr ps pf = parse_rxns s lines dr ps pf.
+Proof. exact parse_items_plain. Qed.
+Print Assumptions C16_parse_plain_is_items.
+
+(** rules carried out of band: printing WITHOUT suffixes and handing every line its rule explicitly reproduces the multiset
+    of reactions with rules, for every combination of the parser flags *)
+Theorem C16_strings_roundtrip_explicit_rules : ∀ (H : net) (sort : bool) (dr : string) (ps pf : bool),
+  wf16 H → strings_domain H = true →
+  (parse_items empty_net ((λ p, (fmt_line false false p.1 p.2, Some (r_rule p.2))) <$> print_items H sort) dr ps pf).2 = None ∧
+  rxns_of (parse_items empty_net ((λ p, (fmt_line false false p.1 p.2, Some (r_rule p.2))) <$> print_items H sort) dr ps pf).1
+    ≡ₚ rxns_of H.
+Proof. exact strings_roundtrip_explicit_rules. Qed.
+Print Assumptions C16_strings_roundtrip_explicit_rules.
+
+(** with [prefer_suffix] the printed rule suffix wins over ANY explicit per-line rule [q] (present or not) *)
+Theorem C16_strings_roundtrip_prefer_suffix :
+  ∀ (H : net) (include_id sort : bool) (dr : string) (q : string → rxn → option string),
+  wf16 H → strings_domain H = true →
+  (parse_items empty_net ((λ p, (fmt_line true include_id p.1 p.2, q p.1 p.2)) <$> print_items H sort) dr true true).2 = None ∧
+  rxns_of (parse_items empty_net ((λ p, (fmt_line true include_id p.1 p.2, q p.1 p.2)) <$> print_items H sort) dr true true).1
+    ≡ₚ rxns_of H.
+Proof. exact strings_roundtrip_prefer_suffix. Qed.
+Print Assumptions C16_strings_roundtrip_prefer_suffix.
